@@ -19,7 +19,7 @@ def run(ck: Check):
     ck.build_harness()
     ck.gen_tables()
     ck.lean_obligations(["NaijaVerif.Props.C12", "NaijaVerif.Props.C12Set"])
-    ck.build_driver()
+    ck.build_driver(["Pool"])
     n = 2000 if ck.tier == "quick" else 150000
     reqs, res = stream(ck, n)
     classify(ck, reqs, res)
